@@ -287,7 +287,7 @@ Proof.
   destruct (memb 61 t); apply ksorted_sm_set, H.
 Qed.
 
-Lemma rwf_join r src chan rest : RWf r -> RWf (ref_join r src chan rest).
+Lemma rwf_join r src tag chan rest : RWf r -> RWf (ref_join r src tag chan rest).
 Proof.
   intros W. unfold ref_join.
   set (r1 := match alookup (key chan) (r_chans r) with Some _ => r | None => _ end).
@@ -297,7 +297,7 @@ Proof.
     intros k c. rewrite alookup_sm_set by apply (wf_chans _ W). destruct (streqb k (key chan)).
     - intros H; injection H as <-. split; simpl; [apply ksorted_nil|constructor].
     - apply (wf_cwf _ W). }
-  assert (W3 : RWf (upd_chan (upd_user (ensure_user r1 src) (s_name src) (ext_join rest)) chan (add_member (key (s_name src))))).
+  assert (W3 : RWf (upd_chan (upd_user (ensure_user r1 src) (s_name src) (join_tell src tag rest)) chan (add_member (key (s_name src))))).
   { apply rwf_upd_chan; [|apply rwf_upd_user, rwf_ensure_user, W1].
     intros c Hc. unfold add_member. destruct (alookup (key (s_name src)) (rc_members c)); [exact Hc|].
     apply cwf_set_members; [exact Hc|]. apply ksorted_sm_set, Hc. }
